@@ -135,6 +135,7 @@ pub fn judge_plan(
     base: &Outcome,
     plan: &FaultPlan,
     chunk: Chunking,
+    recover: bool,
     stats: &mut Stats,
 ) -> (Judgement, Outcome) {
     let o = run_prepared(p, plan, chunk);
@@ -197,6 +198,9 @@ pub fn judge_plan(
             }
             Res::Panic(_) => unreachable!(),
         }
+        if !recover {
+            return (Judgement::Pass, o);
+        }
         // recovery: same process, fresh context, working loader
         let r = run_prepared(p, &FaultPlan::default(), Chunking::NONE);
         stats.compiled(&r);
@@ -245,24 +249,52 @@ fn line_boundaries(data: &[u8]) -> Vec<usize> {
 }
 
 /// The complete single-fault enumeration for a baseline history.
-fn single_fault_plans(base: &Outcome, sizes: &BTreeMap<u64, usize>, bounds: &BTreeMap<u64, Vec<usize>>, rng: &mut Rng) -> Vec<FaultPlan> {
+fn single_fault_plans(
+    base: &Outcome,
+    sizes: &BTreeMap<u64, usize>,
+    bounds: &BTreeMap<u64, Vec<usize>>,
+    rng: &mut Rng,
+    stats: &mut Stats,
+) -> Vec<FaultPlan> {
     let mut plans = vec![];
-    for f in 0..base.finds {
-        for k in Kind::FIND {
-            let mut p = FaultPlan::default();
-            p.finds.insert(f, k);
-            plans.push(p);
-        }
+    // Every call index is always hit.  For very long histories only two of the
+    // error kinds (rotating) are tried per index, to bound the cost of one run.
+    let full = base.finds * 6 + base.hits * 8 <= 1500;
+    if !full {
+        stats.inc("workloads_with_kinds_rotated");
     }
     let mut rot = 0usize;
+    for f in 0..base.finds {
+        if full {
+            for k in Kind::FIND {
+                let mut p = FaultPlan::default();
+                p.finds.insert(f, k);
+                plans.push(p);
+            }
+        } else {
+            for _ in 0..2 {
+                let mut p = FaultPlan::default();
+                p.finds.insert(f, Kind::FIND[rot % Kind::FIND.len()]);
+                rot += 1;
+                plans.push(p);
+            }
+        }
+    }
     for h in 0..base.hits {
         let len = sizes.get(&h).copied().unwrap_or(0);
-        for k in Kind::READ {
+        if full {
+            for k in Kind::READ {
+                let mut p = FaultPlan::default();
+                p.reads.insert(h, (k, 0));
+                plans.push(p);
+            }
+        } else {
             let mut p = FaultPlan::default();
-            p.reads.insert(h, (k, 0));
+            p.reads.insert(h, (Kind::READ[rot % Kind::READ.len()], 0));
+            rot += 1;
             plans.push(p);
         }
-        let mut offs: Vec<usize> = bounds.get(&h).cloned().unwrap_or_default();
+        let mut offs: Vec<usize> = if full { bounds.get(&h).cloned().unwrap_or_default() } else { vec![] };
         if len > 0 {
             offs.push(len);
             offs.push(rng.usize(len));
@@ -390,7 +422,7 @@ impl Prop for C39 {
                 }
             }
         }
-        let mut plans: Vec<(FaultPlan, Chunking)> = single_fault_plans(&base, &sizes, &bounds, &mut rng)
+        let mut plans: Vec<(FaultPlan, Chunking)> = single_fault_plans(&base, &sizes, &bounds, &mut rng, stats)
             .into_iter()
             .map(|p| (p, Chunking::NONE))
             .collect();
@@ -432,8 +464,10 @@ impl Prop for C39 {
         }
         let mut out = vec![];
         let mut classes: Vec<(String, String)> = vec![];
-        for (plan, chunk) in plans {
-            let (j, o) = judge_plan(&p, &base, &plan, chunk, stats);
+        // the recovery compile costs a full compilation: for expensive workloads do it for every 4th plan
+        let heavy = base.finds > 60;
+        for (n, (plan, chunk)) in plans.into_iter().enumerate() {
+            let (j, o) = judge_plan(&p, &base, &plan, chunk, !heavy || n % 4 == 0, stats);
             if !o.delivered.is_empty() {
                 stats.nontrivial(o.history_digest());
             }
@@ -472,7 +506,7 @@ impl Prop for C39 {
         let Some(base) = baseline(&p, stats) else {
             return vec![];
         };
-        let (j, o) = judge_plan(&p, &base, &case.plan, case.chunk, stats);
+        let (j, o) = judge_plan(&p, &base, &case.plan, case.chunk, true, stats);
         match j {
             Judgement::Fail { oracle, signature, detail } => vec![viol(&case, oracle, signature, detail, &o)],
             _ => vec![],
